@@ -22,7 +22,8 @@ EXPLANATION = (
     "newcomer with the K-th contact of the list sorted by distance to the own id, and add_peer splits and "
     "retries when it says so."
 )
-TECHNIQUE = "static analysis: who-may-write, normalised boundary-expression forms, guard dominance, must-precede ordering, handler/try pairing"
+EXACTNESS = "Second pass (DESIGN.md §10, exactness / completeness halves) — bucket lookup start / step / return, neighbour index tests and absorb assignments exactly under their conditions, meeting / split points inside the bucket, every covered contact moves, bucket insert and table insert effects and results, admission rule (K-th contact, sort key, strict comparison); bucket index looked up after the last change of the bucket list."
+TECHNIQUE = "static analysis: who-may-write, normalised boundary-expression forms, guard dominance, must-precede ordering, handler/try pairing; exact fact-set comparison of the tests dominating each effect and refusal (effect / refusal tables), fall-through path queries"
 NOT_DECIDED = ("that the invariants hold after an arbitrary add/remove history (induction over runtime state is not mechanised); "
                "behaviour that needs a history to show, e.g. a contiguous join with the wrong neighbour")
 ASSUMPTIONS = ["protocol.py serialises all routing-table mutations in one task (routing_table_task under _split_lock)"]
